@@ -45,11 +45,17 @@ const (
 type member struct {
 	sc  *annh.Sc
 	k   int
+	g   *gpat // shared pattern indexed by the announce ordinal of the whole tier (nil: own pattern)
 	pat string
 	mu  sync.Mutex
 	n   int
 	iv  []int64 // interval units of the ok replies, cycled
 	miv []int64
+}
+
+type gpat struct {
+	pat string
+	n   atomic.Int64
 }
 
 func (m *member) URL() string { return fmt.Sprintf("stub://member%d", m.k) }
@@ -77,6 +83,13 @@ func (m *member) Announce(ctx context.Context, req tracker.AnnounceRequest) (*tr
 	m.mu.Unlock()
 	kind := m.kindAt(n - 1)
 	nxt := m.kindAt(n) == 'O'
+	if m.g != nil { // TLC-generated pattern over the tier's announces; afterwards everybody answers
+		i := int(m.g.n.Add(1)) - 1
+		kind, nxt = 'O', false
+		if i < len(m.g.pat) {
+			kind = m.g.pat[i]
+		}
+	}
 	tt := req.Torrent
 	line := map[string]any{"k": m.k, "t": 1, "ev": evName(req.Event), "ih": hex.EncodeToString(tt.InfoHash[:]), "pid": hex.EncodeToString(tt.PeerID[:]),
 		"port": tt.Port, "up": tt.BytesUploaded, "down": tt.BytesDownloaded, "left": tt.BytesLeft, "now": m.sc.Ms(at), "tp": "stub", "n": n, "nxt": nxt,
@@ -119,6 +132,7 @@ type tierSpec struct {
 	durMs int
 	minAn int // stop early once this many announces were seen (0 = run for durMs)
 	real  []string // "" stub | "http" | "udp": real tracker clients against scripted servers
+	gpat  string   // TLC-generated answer pattern over the announces of the whole tier
 }
 
 type tev struct {
@@ -221,14 +235,21 @@ func runTier(sp tierSpec, stall *stallMeter) *annh.Sc {
 		}
 	}()
 	var ks []int
+	var sharedG *gpat
 	if sp.real == nil {
 		var ms []*member
 		for j, p := range sp.pats {
 			m := &member{sc: sc, k: j + 1, pat: p, iv: []int64{1, 2, 1, 3}, miv: []int64{0, 1, 0, 0}}
+			if sp.gpat != "" {
+				if j == 0 {
+					sharedG = &gpat{pat: sp.gpat}
+				}
+				m.g = sharedG
+			}
 			ms = append(ms, m)
 			members = append(members, m)
 			ks = append(ks, j+1)
-			sc.Trk = append(sc.Trk, annh.TrkCfg{Dest: j + 1, Up0: p[0] == 'O'})
+			sc.Trk = append(sc.Trk, annh.TrkCfg{Dest: j + 1, Up0: p[0] == 'O' && sp.gpat == ""})
 		}
 		count = func() int {
 			c := 0
@@ -290,6 +311,9 @@ func runTier(sp tierSpec, stall *stallMeter) *annh.Sc {
 	}
 	sc.Ann = []annh.AnnCfg{{T: 1, Ks: ks}}
 	sc.Meta["pats"] = sp.pats
+	if sp.gpat != "" {
+		sc.Meta["gpat"] = sp.gpat
+	}
 	tier := tracker.NewTier(members) // shuffles
 	completedC := make(chan struct{})
 	newPeers := make(chan []*net.TCPAddr)
@@ -639,6 +663,7 @@ func main() {
 	from := flag.Int("from", 0, "")
 	to := flag.Int("to", 0, "")
 	resf := flag.String("res", "", "")
+	gpf := flag.String("gpats", "", "file with TLC-generated answer patterns (JSON lines: array of \"O\"/\"F\")")
 	flag.Parse()
 	torrent.DisableLogging()
 	logger.Disable()
@@ -699,6 +724,34 @@ func main() {
 	for _, sp := range genTier(*seed, *nTier) {
 		sp := sp
 		goRun(func() *annh.Sc { return runTier(sp, stall) })
+	}
+	if *gpf != "" {
+		f, err := os.Open(*gpf)
+		if err != nil {
+			panic(err)
+		}
+		dec := json.NewDecoder(f)
+		i := 0
+		for {
+			var p []string
+			if err := dec.Decode(&p); err != nil {
+				break
+			}
+			pat := ""
+			for _, c := range p {
+				pat += c
+			}
+			for nm := 2; nm <= 3; nm++ {
+				i++
+				sp := tierSpec{name: fmt.Sprintf("gen%d", i), kind: "generated", pats: make([]string, nm), gpat: pat, need: true,
+					durMs: 9000, minAn: len(pat) + 2}
+				for j := range sp.pats {
+					sp.pats[j] = "F"
+				}
+				goRun(func() *annh.Sc { return runTier(sp, stall) })
+			}
+		}
+		f.Close()
 	}
 	wg.Wait()
 	scs = append(scs, fz)
